@@ -269,9 +269,9 @@ func (w *jobctlWorld) work() {
 		// the finished condition is written after the delete call of the same sync
 		if j := w.apiJob(); j != nil {
 			ttl := jobutil.GetTTLAfterFinished(j, w.cfg)
-			if cf := j.Status.Condition.Finished; cf == nil {
-				w.c.Violate("C13", "ttl-not-early", "Job deleted by the controller although it is not finished")
-			} else if cf.FinishTimestamp.Add(ttl).UnixNano() > w.ttlDeleteAt {
+			// (when the delete made the status write conflict, the finished condition never
+			// reaches the server; the liveness of its tasks was judged at the delete instant)
+			if cf := j.Status.Condition.Finished; cf != nil && cf.FinishTimestamp.Add(ttl).UnixNano() > w.ttlDeleteAt {
 				w.c.Violate("C13", "ttl-not-early", "Job deleted at %d before finish %d + ttl %v", w.ttlDeleteAt, cf.FinishTimestamp.UnixNano(), ttl)
 			}
 		}
@@ -280,21 +280,34 @@ func (w *jobctlWorld) work() {
 	w.monitorJobVersion()
 }
 
-// checkEnvelope evaluates E-PodCacheFresh for the sync that is about to run: every pod named
-// in the cached Job's status that exists on the server must be in the pod cache.
+// checkEnvelope evaluates E-OrphanVisible for the sync that is about to run: when the cached
+// Job can no longer create tasks (kill timestamp or admission error set), every pod owned by
+// the Job on the server that is not listed in the cached status must be in the pod cache
+// (unrecorded tasks are adopted from the cache). Absence of status-listed pods from the cache
+// is harmless since the controller confirms it with a live GET.
 func (w *jobctlWorld) checkEnvelope() {
-	o, ok := w.ctx.Sim().Jobs().CacheGet(&execution.Job{ObjectMeta: metav1.ObjectMeta{Namespace: "ns", Name: strings.TrimPrefix(w.jobKey, "ns/")}})
+	o, ok := w.ctx.Sim().Jobs().CacheGet(&execution.Job{ObjectMeta: metav1.ObjectMeta{Namespace: "ns", Name: "job"}})
 	if !ok {
 		return
 	}
-	for _, r := range o.(*execution.Job).Status.Tasks {
-		if w.apiPod(r.Name) != nil {
-			if _, cached := w.ctx.Sim().Pods().CacheGet(&corev1.Pod{ObjectMeta: metav1.ObjectMeta{Namespace: "ns", Name: r.Name}}); !cached {
-				if !w.envelopeBroken {
-					w.c.Count("jc.envelope.pod-cache-stale")
-				}
-				w.envelopeBroken = true
+	cj := o.(*execution.Job)
+	_, adm := jobutil.GetAdmissionErrorMessage(cj)
+	if cj.Spec.KillTimestamp == nil && !adm && cj.DeletionTimestamp == nil {
+		return
+	}
+	listed := map[string]bool{}
+	for _, r := range cj.Status.Tasks {
+		listed[r.Name] = true
+	}
+	for _, p := range w.ownedPods() {
+		if listed[p.Name] {
+			continue
+		}
+		if _, cached := w.ctx.Sim().Pods().CacheGet(&corev1.Pod{ObjectMeta: metav1.ObjectMeta{Namespace: "ns", Name: p.Name}}); !cached || cj.DeletionTimestamp != nil {
+			if !w.envelopeBroken {
+				w.c.Count("jc.envelope.orphan-invisible")
 			}
+			w.envelopeBroken = true
 		}
 	}
 }
@@ -490,7 +503,7 @@ func (w *jobctlWorld) monitorJobVersion() {
 		case c.Finished != nil:
 			st = execution.JobStateFinished
 		}
-		if n == 1 && j.Status.State != st && j.DeletionTimestamp == nil {
+		if n == 1 && j.Status.State != st {
 			w.c.Violate("C11", "state-matches-condition", "state %q but condition implies %q", j.Status.State, st)
 		}
 		if j.Status.Phase.IsTerminal() != (c.Finished != nil) {
@@ -562,7 +575,7 @@ func (w *jobctlWorld) monitorJobVersion() {
 		}
 	}
 	// C09: a task whose object still exists (and is not terminal) is never recorded lost/finished
-	if !w.envelopeBroken {
+	{
 		for name, cr := range cur {
 			if cr.FinishTimestamp.IsZero() {
 				continue
@@ -626,6 +639,7 @@ func (w *jobctlWorld) monitorResult(j *execution.Job) {
 }
 
 func runJobCtl(c *Ctx) {
+	runJobctlScenarios(c)
 	c.ForCases(func(i int, rng *rand.Rand) { jobctlCase(c, rng) })
 }
 
@@ -934,7 +948,8 @@ func (w *jobctlWorld) settle(rounds int) {
 				break
 			}
 		}
-		if round == 1 {
+		if round >= 1 {
+			// periodic resync of the informers (10 min in production)
 			w.ctx.Sim().Jobs().Resync()
 			w.ctx.Sim().Pods().Resync()
 			w.c.Emit("jc.resync", w.state())
